@@ -2,7 +2,7 @@
 (* Mode V for C35: judges the observations the harness (harness/vh-http)     *)
 (* recorded for every cell of the matrix of HttpMethod.tla.                  *)
 (*                                                                           *)
-(* observation = the cell (integ, entry, method, frame, items) plus          *)
+(* observation = the cell (integ, entry, method, accept, qs, body) plus       *)
 (*   status   HTTP status of the response                                    *)
 (*   errs     one boolean per GraphQL response in the body: it has `errors`  *)
 (*            (empty when the body is not JSON, e.g. a plain 4xx rejection;  *)
@@ -13,8 +13,12 @@
 (* Verdicts come from the reference operators of HttpMethod (MayExecute,     *)
 (* GetOperation, MustError, ExpectedEffects), not from its state machine:    *)
 (*   GET cells  -- the property.  "ok", "known:DevGetMutation<I>" (exactly   *)
-(*     today's behaviour on exactly the trigger: the mutation ran once and   *)
-(*     was answered as a success), anything else "violation:<why>".          *)
+(*     today's behaviour on exactly the trigger -- the operation selected by *)
+(*     the QUERY STRING is a mutation: it ran once and was answered as a     *)
+(*     success), anything else "violation:<why>": in particular any effect   *)
+(*     when the operationName selects nothing (empty / unknown name), any    *)
+(*     effect of a JSON body sent along with a GET, any effect of a GET      *)
+(*     without query string.                                                 *)
 (*   POST cells and GET + pure query documents -- controls of the harness    *)
 (*     (the property says nothing about them): "control:<why>" when the      *)
 (*     side-effect counter / route does not behave, which the driver turns   *)
@@ -27,38 +31,53 @@ Obs == ndJsonDeserialize(IOEnv.TRACE)
 VARIABLE l
 
 AsCell(o) == [integ |-> o.integ, entry |-> o.entry, method |-> o.method, accept |-> o.accept,
-              frame |-> o.frame, items |-> o.items]
+              qs |-> o.qs, body |-> o.body]
 \* "answered with an error": an HTTP error status, or a GraphQL response with `errors`
 ErrorReported(o) == o.status >= 400 \/ (Len(o.errs) = 1 /\ o.errs[1])
 AnyErr(o) == o.status >= 400 \/ \E k \in 1..Len(o.errs) : o.errs[k]
-PlainSuccess(o) == o.status = 200 /\ Len(o.errs) = Len(o.items) /\ ~AnyErr(o)
+\* one plain success per request that had to be considered
+PlainSuccess(o, n) == o.status = 200 /\ Len(o.errs) = n /\ ~AnyErr(o)
+
+\* a mutation effect the query string cannot explain: was a body sent along?
+Blame(o, why) == IF Len(o.body) > 0 THEN "violation:get-body-executed" ELSE why
 
 GetVerdict(o) ==
-  LET it == o.items[1] IN
-  IF MustError("GET", it) THEN                       \* GET and the selected operation is a mutation
+  IF o.qs = <<>> THEN                                \* GET without a query string: nothing may run
+    (IF o.effects = 0 THEN "ok" ELSE Blame(o, "violation:empty-get-ran-mutation"))
+  ELSE LET it == o.qs[1] IN
+  IF NoSelection(it) THEN                            \* empty / unknown operationName, ambiguous document
+    (IF o.effects = 0 THEN "ok" ELSE Blame(o, "violation:unselected-mutation-ran-over-get"))
+  ELSE IF MustError("GET", it) THEN                  \* GET and the selected operation is a mutation
     IF o.effects = 0 /\ ErrorReported(o) THEN "ok"
-    ELSE IF DevTrigger("GET", it) /\ o.effects = DevItemEffect(it) /\ o.reads = 0 /\ PlainSuccess(o)
+    ELSE IF DevTrigger("GET", it) /\ o.effects = DevItemEffect(it) /\ o.reads = 0 /\ PlainSuccess(o, 1)
          THEN "known:" \o DevName(o.integ)
     ELSE IF o.effects = 0 THEN "violation:no-error-reported"
     ELSE IF o.effects = 1 THEN "violation:ran-and-error"
-    ELSE "violation:ran-more-than-once"
+    ELSE Blame(o, "violation:ran-more-than-once")
   ELSE                                               \* GET and the selected operation is a query
-    IF o.effects # 0 THEN "violation:query-over-get-ran-mutation"
-    ELSE IF ~HasMutation(it.doc) /\ ~(o.reads = 1 /\ PlainSuccess(o)) THEN "control:get-query-not-run"
+    IF o.effects # 0 THEN Blame(o, "violation:query-over-get-ran-mutation")
+    ELSE IF ~HasMutation(it.doc) /\ ~(o.reads = 1 /\ PlainSuccess(o, 1)) THEN "control:get-query-not-run"
     ELSE "ok"
 
+\* POST: every selected operation of the body runs, a request that selects nothing is a request error
 PostVerdict(o) ==
   LET c == AsCell(o) IN
-  IF o.effects = ExpectedEffects(c) /\ o.reads = ExpectedReads(c) /\ PlainSuccess(o) THEN "ok"
-  ELSE "control:post-not-run"
+  IF /\ o.effects = ExpectedEffects(c) /\ o.reads = ExpectedReads(c)
+     /\ o.status = 200 /\ Len(o.errs) = Len(o.body)
+     /\ \A k \in 1..Len(o.errs) : o.errs[k] <=> NoSelection(o.body[k])
+  THEN "ok" ELSE "control:post-not-run"
 
 Verdict(o) ==
   IF AsCell(o) \notin Cells THEN "control:not-a-cell"
   ELSE IF o.method = "GET" THEN GetVerdict(o) ELSE PostVerdict(o)
 
-\* today's code as modelled (all deviations on): everything selected runs, nothing is rejected
+\* today's code as modelled (all deviations on): everything selected runs, nothing is rejected,
+\* no selection / no request is an error
 MatchesDevModel(o) ==
-  LET c == AsCell(o) IN o.effects = DevEffects(c) /\ o.reads = ExpectedReads(c) /\ PlainSuccess(o)
+  LET c == AsCell(o) e == Effective(c) IN
+  /\ o.effects = DevEffects(c) /\ o.reads = ExpectedReads(c)
+  /\ IF e = <<>> THEN AnyErr(o)
+     ELSE o.status = 200 /\ Len(o.errs) = Len(e) /\ \A k \in 1..Len(e) : o.errs[k] <=> NoSelection(e[k])
 
 TInit == /\ cell = (CHOOSE c \in Cells : TRUE) /\ pc = "done" /\ pending = <<>> /\ sel = NoOp
          /\ effects = 0 /\ reads = 0 /\ outcome = <<>>
